@@ -15,7 +15,7 @@ from . import skeletons as sk
 from . import c05  # def-emitter-siblings is registered for C17 there
 from . import c08  # identity-key is registered for C17 there
 from . import c06  # wiring (`local` is the template's own namespace) is registered for C17 there
-from .common import calls, stmt_nodes, pn, access_paths
+from .common import calls, stmt_nodes, pn, access_paths, guards_of, return_leaves, arms, branch_paths
 
 
 def _fmt_left(node):
@@ -196,11 +196,13 @@ def enabled_guard(ctx):
     g = cfgmod.function_cfg(fn)
     impl = calls(fn, "self.impl.get_or_create")
     ctx.require(impl, "_ctx_get_or_create does not call the implementation")
-    ifs = [n for n in fn.body if isinstance(n, ast.If) and "cache_enabled" in src(n.test)]
-    ok = bool(ifs) and isinstance(ifs[0].test, ast.UnaryOp) and isinstance(ifs[0].test.op, ast.Not) and isinstance(ifs[0].body[0], ast.Return) and src(ifs[0].body[0].value) == "creation_function()"
-    ctx.check(ok, "guard", db.where(ifs[0]) if ifs else db.where(fn), "no `if not cache_enabled: return creation_function()`", "disabled cache calls the creation function directly")
-    if ifs:
-        ctx.check(g.stmt_dominates(ifs[0], enclosing_stmt(impl[0])), "guard-dominates", db.where(impl[0]), "the implementation is reached without passing the cache_enabled test", "guard dominates impl.get_or_create")
+    en = "self.template.cache_enabled"
+    crp = pn(fn, 2)
+    leaves = return_leaves(fn)
+    direct = [(v_, g_) for v_, g_ in leaves if P.matches(v_, "%s()" % crp)]
+    ok = bool(direct) and all((en, False) in g_ for v_, g_ in direct)
+    ctx.check(ok, "guard", db.where(direct[0][0]) if direct else db.where(fn), "no `if not cache_enabled: return creation_function()`", "disabled cache calls the creation function directly")
+    ctx.check(all((en, True) in guards_of(c_, fn) for c_ in impl), "guard-dominates", db.where(impl[0]), "the implementation is reached without passing the cache_enabled test", "impl.get_or_create only with the cache enabled")
     c = impl[0]
     ctx.check(src(c.args[0]) == "key" and src(c.args[1]) == "creation_function", "impl-args", db.where(c), "backend called with %s" % src(c), "impl.get_or_create(key, creation_function, **kw)")
     goc = db.func("cache.Cache.get_or_create")
